@@ -180,7 +180,7 @@ theorem F_pushVIf (b : Frame) (K : List (St × Expr)) (V : List Value) (σ : Lis
 with output `out` and whose continuation is: pending entries `K`, values `V` (a value is pushed
 iff `used`), `n` scopes, callers `cs`.
 * value: the machine reaches that continuation with the value pushed and the scopes `r.scopes`;
-* error: the machine reaches a step that returns the same error;
+* error: the machine reaches (in some frame, possibly of a callee) a step that returns the same error;
 * `break` / `continue` (only where `bk` / `ck` allow): the machine reaches the frame that
   dispatching a `break` / `continue` with that continuation produces (whatever it is);
 * `return v`: the machine reaches the finished frame (no pending entries, `v` on top). -/
@@ -188,7 +188,7 @@ def Concl (p : Program) (bk ck : Bool) (A : List Frame) (b : Frame) (cs : List F
     (K : List (St × Expr)) (V : List Value) (n : Nat) (out : String) (used : Bool) (r : Res) : Prop :=
   match r.outcome with
   | .val v => r.scopes.length = n ∧ MS p A out (F b K (pushIf used v V) r.scopes :: cs) r.out
-  | .err er => ∃ g, MS p A out (g :: cs) r.out ∧ MErr p g er
+  | .err er => ∃ T g, MS p A out (g :: T) r.out ∧ MErr p g er
   | .brk => bk = true ∧ r.scopes.length = n ∧
       ∀ G, dispatch p (F b K V r.scopes) .N (.brk 0 false) = .ok G → MS p A out (G :: cs) r.out
   | .cont => ck = true ∧ r.scopes.length = n ∧
@@ -207,7 +207,7 @@ theorem Concl.prepend {p : Program} {bk ck : Bool} {A0 A : List Frame} {b : Fram
   · exact ⟨h.1, h.2.1, fun G hG => h0.trans (h.2.2 G hG)⟩
   · exact ⟨h.1, h.2.1, fun G hG => h0.trans (h.2.2 G hG)⟩
   · obtain ⟨V', B', h1⟩ := h; exact ⟨V', B', h0.trans h1⟩
-  · obtain ⟨g, h1, h2⟩ := h; exact ⟨g, h0.trans h1, h2⟩
+  · obtain ⟨T, g, h1, h2⟩ := h; exact ⟨T, g, h0.trans h1, h2⟩
 
 /-- A sub-expression in operand position (no exits allowed) that did not produce a value:
 the enclosing expression ends the same way, whatever its own continuation. -/
@@ -647,6 +647,8 @@ theorem sim_seq {p : Program} {L : Nat} {ev : Ev} (ih : IH p L ev) (u bk ck : Bo
 
 -- ------------------------------------------------------------------ blocks, if, match
 
+theorem F_values0 (b : Frame) (K : List (St × Expr)) (V : List Value) (σ : List Block) : (F b K V σ).values = V := rfl
+
 theorem evalBlock_F (b : Frame) (K : List (St × Expr)) (V : List Value) (σ : List Block) (bs : Block)
     (used : Bool) (body : List Expr) :
     evalBlock { F b K V σ with nextBlock := bs } used body =
@@ -681,22 +683,19 @@ theorem if_PW (p : Program) (b : Frame) (K : List (St × Expr)) (V : List Value)
             (pushIf ((u && true) && eb.isEmpty) vUnit V) ([] :: σ))
       | none => dispatch p (F b K (cv :: V) σ) .PW (.ifE id u c t els) =
           .ok (F b ((.E, .ifE id u c t none) :: K) V ([] :: σ)) := by
-  have hE : ∀ V', ({ (F b K (cv :: V) σ).pushE .E (.ifE id u c t els) with values := V' } : Frame) =
-      F b ((.E, .ifE id u c t els) :: K) V' σ := fun _ => rfl
+  have hF : ∀ V', ({ F b K (cv :: V) σ with values := V' } : Frame) = F b K V' σ := fun _ => rfl
+  have hP : ∀ V' els', (F b K V' σ).pushE .E (.ifE id u c t els') = F b ((.E, .ifE id u c t els') :: K) V' σ :=
+    fun _ _ => rfl
   cases h : cv.asBool with
-  | none => simp [dispatch, Frame.pushE, F, h]
+  | none => simp only [dispatch, F_values0, hF, h]; exact ⟨_, _, _, rfl⟩
   | some bv =>
     cases bv
     · cases els with
-      | none => simp [dispatch, Frame.pushE, F, h]
+      | none => simp only [dispatch, F_values0, hF, h, hP]; rfl
       | some eb =>
-        simp only [dispatch, Expr.used]
-        have : ((F b K (cv :: V) σ).pushE .E (.ifE id u c t (some eb))).values = cv :: V := rfl
-        simp only [this, h, hE, evalBlock_F0]
+        simp only [dispatch, Expr.used, F_values0, hF, h, hP, evalBlock_F0]
         simp
-    · simp only [dispatch, Expr.used]
-      have : ((F b K (cv :: V) σ).pushE .E (.ifE id u c t els)).values = cv :: V := rfl
-      simp only [this, h, hE, evalBlock_F0]
+    · simp only [dispatch, Expr.used, F_values0, hF, h, hP, evalBlock_F0]
       simp
 
 theorem popBlock_F (b : Frame) (K : List (St × Expr)) (V : List Value) (x y : Block) (B : List Block) :
@@ -927,7 +926,7 @@ theorem Concl_err1 {p : Program} {bk ck : Bool} {b : Frame} {cs : List Frame} {s
     {K : List (St × Expr)} {V V0 : List Value} {σ : List Block} {n : Nat} {out : String} {used : Bool} {er : Err}
     (hd : ∃ f' st' vals, dispatch p (F b K V0 σ) st e = .err f' st' vals er) :
     Concl p bk ck (F b ((st, e) :: K) V0 σ :: cs) b cs K V n out used ⟨σ, out, .err er⟩ := by
-  simp only [Concl]; exact ⟨_, MS.refl _ _, MErr.mk1 hd⟩
+  simp only [Concl]; exact ⟨_, _, MS.refl _ _, MErr.mk1 hd⟩
 
 theorem F_values (b : Frame) (K : List (St × Expr)) (V : List Value) (σ : List Block) : (F b K V σ).values = V := rfl
 theorem F_exprs (b : Frame) (K : List (St × Expr)) (V : List Value) (σ : List Block) : (F b K V σ).exprs = K := rfl
@@ -959,11 +958,11 @@ theorem evalCall_builtin1 (p : Program) (b : Frame) (K : List (St × Expr)) (V :
       if name = "println" then
         (match a with
           | .str t => .okOut (F b K (pushIf u vUnit V) σ) (t ++ "\n")
-          | _ => .err (F b K V σ) .E [a, .builtin name] (.typeError "String"))
+          | _ => .err (F b K V σ) .E [.builtin name, a] (.typeError "String"))
       else if name = "print" then
         (match a with
           | .str t => .okOut (F b K (pushIf u vUnit V) σ) t
-          | _ => .err (F b K V σ) .E [a, .builtin name] (.typeError "String"))
+          | _ => .err (F b K V σ) .E [.builtin name, a] (.typeError "String"))
       else if name = "string_repr" then .ok (F b K (pushIf u (.str (display p a)) V) σ)
       else .unsupported ("builtin " ++ name) := by
   have hF : ∀ V', ({ F b K (a :: .builtin name :: V) σ with values := V' } : Frame) = F b K V' σ := fun _ => rfl
@@ -1145,16 +1144,16 @@ theorem match_PW (p : Program) (b : Frame) (K : List (St × Expr)) (V : List Val
       | .fail er => ∃ f' st' vals,
           dispatch p (F b K (sv :: V) σ) .PW (.matchE id u sc cases) = .err f' st' vals er
     | _ => ∃ f' st' vals, dispatch p (F b K (sv :: V) σ) .PW (.matchE id u sc cases) = .err f' st' vals .notEnum := by
-  have hE : ∀ V', ({ (F b K (sv :: V) σ).pushE .E (.matchE id u sc cases) with values := V' } : Frame) =
-      F b ((.E, .matchE id u sc cases) :: K) V' σ := fun _ => rfl
-  have hv : ((F b K (sv :: V) σ).pushE .E (.matchE id u sc cases)).values = sv :: V := rfl
-  cases sv <;> simp only [] <;> (try (simp only [dispatch, hv, hE]; exact ⟨_, _, _, rfl⟩))
+  have hF : ∀ V', ({ F b K (sv :: V) σ with values := V' } : Frame) = F b K V' σ := fun _ => rfl
+  have hP : ∀ V', (F b K V' σ).pushE .E (.matchE id u sc cases) = F b ((.E, .matchE id u sc cases) :: K) V' σ :=
+    fun _ => rfl
+  cases sv <;> simp only [] <;> (try (simp only [dispatch, F_values, hF]; exact ⟨_, _, _, rfl⟩))
   case enumV ty idx payload =>
     have hm := matchCases_select p b ((.E, .matchE id u sc cases) :: K) V σ u ty idx payload cases
     cases hs : selectCase p σ ty idx payload cases <;> simp only [hs] at hm ⊢
     · refine ⟨hm.1, ?_⟩
-      simp only [dispatch, hv, hE, Expr.used, hm.2]
-    · simp only [dispatch, hv, hE, Expr.used, hm]
+      simp only [dispatch, F_values, hF, hP, Expr.used, hm.2]
+    · simp only [dispatch, F_values, hF, hP, Expr.used, hm]
       exact ⟨_, _, _, rfl⟩
 
 theorem wfCases_mem (u : Bool) : ∀ (cases : List Case) (vn : String) (d : Option Dest) (body : List Expr),
@@ -1282,7 +1281,7 @@ theorem sim_succ_a {ap : Ap} {p : Program} {L n : Nat}
         have hE := binop_E p b K V s2 id u op l r lv rv
         rcases binop_shape op lv rv with ⟨v, hb⟩ | ⟨er, hb⟩ | ⟨w, hb⟩ <;> simp only [hb] at hE ⊢ <;> simp only [Concl]
         · exact ⟨by omega, h2.2.trans (MS.one hE)⟩
-        · exact ⟨_, h2.2, MErr.mk1 hE⟩
+        · exact ⟨_, _, h2.2, MErr.mk1 hE⟩
       all_goals (simp only []; exact h2.operand_nonval (by intro v; simp))
     all_goals (simp only []; exact h1.operand_nonval (by intro v; simp))
   case letE id u dest inner =>
@@ -1300,7 +1299,7 @@ theorem sim_succ_a {ap : Ap} {p : Program} {L n : Nat}
       simp only [Concl, hw.1, pushIf, if_true] at h1
       have hE := let_E p b K V s1 id u dest inner v
       cases hd : destructure dest v (.typeError "Tuple") <;> simp only [hd] at hE ⊢ <;> simp only [Concl]
-      · exact ⟨_, h1.2, MErr.mk1 hE⟩
+      · exact ⟨_, _, h1.2, MErr.mk1 hE⟩
       · exact ⟨by rw [declareAll_length]; exact h1.1, h1.2.trans (MS.one hE)⟩
     all_goals (simp only []; exact h1.operand_nonval (by intro v; simp))
   case assign id u name inner =>
@@ -1318,7 +1317,7 @@ theorem sim_succ_a {ap : Ap} {p : Program} {L n : Nat}
       simp only [Concl, hw.1, pushIf, if_true] at h1
       have hE := assign_E p b K V s1 id u name inner v
       cases hd : setExisting s1 name v <;> simp only [hd] at hE ⊢ <;> simp only [Concl]
-      · exact ⟨_, h1.2, MErr.mk1 hE⟩
+      · exact ⟨_, _, h1.2, MErr.mk1 hE⟩
       · exact ⟨by rw [setExisting_length _ _ _ _ hd]; exact h1.1, h1.2.trans (MS.one hE)⟩
     all_goals (simp only []; exact h1.operand_nonval (by intro v; simp))
   case update id u isAdd name inner =>
@@ -1336,11 +1335,11 @@ theorem sim_succ_a {ap : Ap} {p : Program} {L n : Nat}
       simp only [Concl, hw.1, pushIf, if_true] at h1
       have hE := update_E p b K V s1 id u isAdd name inner dv
       cases hlk : lookupVar p s1 name with
-      | none => simp only [hlk] at hE ⊢; simp only [Concl]; exact ⟨_, h1.2, MErr.mk1 hE⟩
+      | none => simp only [hlk] at hE ⊢; simp only [Concl]; exact ⟨_, _, h1.2, MErr.mk1 hE⟩
       | some cv =>
-        cases cv <;> simp only [hlk] at hE ⊢ <;> (try (simp only [Concl]; exact ⟨_, h1.2, MErr.mk1 hE⟩))
+        cases cv <;> simp only [hlk] at hE ⊢ <;> (try (simp only [Concl]; exact ⟨_, _, h1.2, MErr.mk1 hE⟩))
         case int cur =>
-          cases dv <;> simp only [] at hE ⊢ <;> (try (simp only [Concl]; exact ⟨_, h1.2, MErr.mk1 hE⟩))
+          cases dv <;> simp only [] at hE ⊢ <;> (try (simp only [Concl]; exact ⟨_, _, h1.2, MErr.mk1 hE⟩))
           case int d =>
             cases hse : setExisting s1 name (.int (if isAdd then cur + d else cur - d)) with
             | none => simp only [hse] at hE
@@ -1413,7 +1412,7 @@ theorem sim_succ_a {ap : Ap} {p : Program} {L n : Nat}
       cases hb : cv.asBool with
       | none =>
         simp only [hb] at hPW ⊢
-        simp only [Concl]; exact ⟨_, h1.2, MErr.mk1 hPW⟩
+        simp only [Concl]; exact ⟨_, _, h1.2, MErr.mk1 hPW⟩
       | some bv =>
         cases bv
         · -- condition false
@@ -1457,12 +1456,12 @@ theorem sim_succ_a {ap : Ap} {p : Program} {L n : Nat}
       simp only [Concl, hw.1.1, pushIf, if_true] at h1
       have hs1 := ne_nil_of_len h1.1 hσ
       have hPW := match_PW p b K V s1 id u sc cases sv
-      cases sv <;> simp only [] at hPW ⊢ <;> (try (simp only [Concl]; exact ⟨_, h1.2, MErr.mk1 hPW⟩))
+      cases sv <;> simp only [] at hPW ⊢ <;> (try (simp only [Concl]; exact ⟨_, _, h1.2, MErr.mk1 hPW⟩))
       case enumV ty idx payload =>
         cases hsel : selectCase p s1 ty idx payload cases with
         | fail er =>
           simp only [hsel] at hPW ⊢
-          simp only [Concl]; exact ⟨_, h1.2, MErr.mk1 hPW⟩
+          simp only [Concl]; exact ⟨_, _, h1.2, MErr.mk1 hPW⟩
         | take binds body =>
           simp only [hsel] at hPW ⊢
           obtain ⟨⟨vn, d, hmem⟩, hPW⟩ := hPW
@@ -1543,7 +1542,7 @@ theorem sim_top {p : Program} {L : Nat} {ev : Ev} (ih : IH p L ev) (b : Frame) (
                     (F b [] (v :: V') B' :: cs) (evalSeq ev last es σ out).out
       | .ret v => ∃ V' B', MS p (F b (es.map (fun e => (St.N, e))) (last :: V) σ :: cs) out
                     (F b [] (v :: V') B' :: cs) (evalSeq ev last es σ out).out
-      | .err er => ∃ g, MS p (F b (es.map (fun e => (St.N, e))) (last :: V) σ :: cs) out (g :: cs)
+      | .err er => ∃ T g, MS p (F b (es.map (fun e => (St.N, e))) (last :: V) σ :: cs) out (g :: T)
                     (evalSeq ev last es σ out).out ∧ MErr p g er
       | .brk => False
       | .cont => False
@@ -1568,7 +1567,7 @@ theorem sim_top {p : Program} {L : Nat} {ev : Ev} (ih : IH p L ev) (b : Frame) (
         all_goals first
           | exact h2
           | (obtain ⟨V', B', h3⟩ := h2; exact ⟨V', B', h.2.trans h3⟩)
-          | (obtain ⟨g, h3, h4⟩ := h2; exact ⟨g, h.2.trans h3, h4⟩)
+          | (obtain ⟨T, g, h3, h4⟩ := h2; exact ⟨T, g, h.2.trans h3, h4⟩)
       case brk => simp only [Concl] at h; exact absurd h.1 (by simp)
       case cont => simp only [Concl] at h; exact absurd h.1 (by simp)
       case ret v => simp only [Concl] at h ⊢; exact h
@@ -1598,9 +1597,9 @@ theorem refines_of_IH {p : Program} {L : Nat} {ev : Ev} (ih : IH p L ev)
     obtain ⟨n, t', hn⟩ := MS_sound h1 0
     exact finish_done p _ _ n _ v V' _ _ hn
   case err er =>
-    obtain ⟨g, h1, h2⟩ := h
+    obtain ⟨T, g, h1, h2⟩ := h
     obtain ⟨n, t', hn⟩ := MS_sound h1 0
-    obtain ⟨s', hs, ho⟩ := step_err p g [] t' _ er h2
+    obtain ⟨s', hs, ho⟩ := step_err p g T t' _ er h2
     exact ⟨n + 1, s', runN_last _ _ n _ hn hs (by intro x; simp), ho⟩
   all_goals trivial
 
@@ -1739,7 +1738,7 @@ theorem while_step {ap : Ap} {p : Program} {L n : Nat} (ih : IH p L (evalWith ap
     cases hb : cv.asBool with
     | none =>
       simp only [hb] at hPW ⊢
-      simp only [Concl]; exact ⟨_, h1.2, MErr.mk1 hPW⟩
+      simp only [Concl]; exact ⟨_, _, h1.2, MErr.mk1 hPW⟩
     | some bv =>
       cases bv
       · simp only [hb] at hPW ⊢
@@ -1919,7 +1918,7 @@ theorem for_loop {p : Program} {L : Nat} {ev : Ev} (ih : IH p L ev) (bk ck : Boo
       cases hd : destructure dest x (.typeError "Tuple") with
       | error er =>
         simp only [hd] at hPW ⊢
-        simp only [Concl]; exact ⟨_, MS.refl _ _, MErr.mk1 hPW⟩
+        simp only [Concl]; exact ⟨_, _, MS.refl _ _, MErr.mk1 hPW⟩
       | ok binds =>
         simp only [hd] at hPW ⊢
         have hdl : (declareAll ([] :: σ) binds).length = σ.length + 1 := by simp [declareAll_length]
@@ -1999,7 +1998,7 @@ theorem sim_succ_b {ap : Ap} {p : Program} {L n : Nat}
         have hs1 := ne_nil_of_len h1.1 hσ
         cases iv <;> simp only [] <;>
           (try (simp only [Concl]
-                exact ⟨_, h1.2, MErr.mk1 (for_PW_nonlist p b K V s1 id u dest it body _ 0 (by intro items; simp))⟩))
+                exact ⟨_, _, h1.2, MErr.mk1 (for_PW_nonlist p b K V s1 id u dest it body _ 0 (by intro items; simp))⟩))
         case list items =>
           by_cases hlen : items.length < 9223372036854775808
           · simp only [hlen, if_true]
@@ -2048,6 +2047,217 @@ theorem sim1 (ap : Ap) (p : Program) (hap : ∀ ev, ApHolds p ap ev) :
     · exact sim_succ_b ih hw1 bk ck e σ out hσ hl hwf hx hk
     · exact absurd hk (lv1_not_c e hl)
     · exact sim_succ_a (hap _) ih bk ck e σ out hσ hl hwf hx hk
+
+
+-- ==================================================================== (BS8.lean)
+
+-- ------------------------------------------------------------------ stage (c): return, closures, frames
+
+theorem d_ret_none (p : Program) (b : Frame) (K : List (St × Expr)) (V : List Value) (σ : List Block) (id : Nat)
+    (u : Bool) : dispatch p (F b K V σ) .N (.ret id u none) = .ok (F b ((.E, .ret id u none) :: K) (vUnit :: V) σ) := by
+  simp [dispatch, Frame.pushE, Frame.pushV, F]
+
+theorem d_ret_some (p : Program) (b : Frame) (K : List (St × Expr)) (V : List Value) (σ : List Block) (id : Nat)
+    (u : Bool) (x : Expr) :
+    dispatch p (F b K V σ) .N (.ret id u (some x)) = .ok (F b ((.N, x) :: (.E, .ret id u (some x)) :: K) V σ) := by
+  simp [dispatch, Frame.pushE, F]
+
+theorem ret_E (p : Program) (b : Frame) (K : List (St × Expr)) (V : List Value) (σ : List Block) (id : Nat)
+    (u : Bool) (x : Option Expr) : dispatch p (F b K V σ) .E (.ret id u x) = .ok (F b [] V σ) := by
+  simp [dispatch, F]
+
+theorem d_lambda (p : Program) (b : Frame) (K : List (St × Expr)) (V : List Value) (σ : List Block) (id : Nat)
+    (u : Bool) (ps : List String) (body : List Expr) :
+    dispatch p (F b K V σ) .N (.lambda id u ps body) = .ok (F b K (pushIf u (.closure σ ps body) V) σ) := by
+  simp [dispatch, F_pushVIf, Expr.used, F_blocks]
+
+/-- One more unit of fuel, stage (c) node kinds. -/
+theorem sim_succ_c {ap : Ap} {p : Program} {L n : Nat} (ih : IH p L (evalWith ap p n))
+    (bk ck : Bool) (e : Expr) (σ : List Block) (out : String) (hσ : σ ≠ []) (hl : lvE e ≤ L)
+    (hw : wfE e = true) (hx : exE bk ck e = true)
+    (hk : (∃ id u x, e = .ret id u x) ∨ (∃ id u ps b, e = .lambda id u ps b)) :
+    Holds p bk ck e σ out (evalWith ap p (n + 1) σ out e) := by
+  intro b cs K V
+  rcases hk with ⟨id, u, x, rfl⟩ | ⟨id, u, ps, body, rfl⟩
+  · cases x with
+    | none =>
+      simp only [evalWith, Concl]
+      exact ⟨V, σ, (MS.one (d_ret_none p b K V σ id u)).trans (MS.one (ret_E p b K _ σ id u none))⟩
+    | some x =>
+      simp only [wfE, Bool.and_eq_true] at hw
+      simp only [exE] at hx
+      simp only [lvE] at hl
+      simp only [evalWith]
+      have h1 := (ih false false x σ out hσ (by omega) hw.2 hx b cs ((.E, .ret id u (some x)) :: K) V).prepend
+        (MS.one (d_ret_some p b K V σ id u x))
+      generalize evalWith ap p n σ out x = r1 at h1 ⊢
+      obtain ⟨s1, o1, oc1⟩ := r1
+      cases oc1
+      case val v =>
+        simp only [Concl, hw.1, pushIf, if_true] at h1 ⊢
+        exact ⟨V, s1, h1.2.trans (MS.one (ret_E p b K _ s1 id u (some x)))⟩
+      all_goals (simp only []; exact h1.operand_nonval (by intro v; simp))
+  · simp only [evalWith]
+    exact Concl_val1 (d_lambda p b K V σ id u ps body)
+
+/-- A function body run in its own frame (callee on top of the caller, which waits with `K`, `V`):
+falling off the end and `return` both hand the value to the caller iff the call's value is used. -/
+theorem sim_fun_body {p : Program} {L : Nat} {ev : Ev} (ih : IH p L ev) (hL : 2 ≤ L)
+    (body : List Expr) (hok : bodyOK body = true) (scopes : List Block) (hsc : scopes ≠ [])
+    (cb b : Frame) (cs : List Frame) (K : List (St × Expr)) (V : List Value) (σ : List Block) (out : String) :
+    Concl p false false (F cb (body.map (fun e => (St.N, e))) [vUnit] scopes :: F b K V σ :: cs) b cs K V σ.length
+      out cb.callerUses (runBody ev scopes body σ out) := by
+  simp only [bodyOK, Bool.and_eq_true, decide_eq_true_eq] at hok
+  have hseq := sim_seq ih true false false body vUnit scopes out hsc (by omega) hok.1.1 hok.1.2 cb
+    (F b K V σ :: cs) [] [vUnit]
+  simp only [List.append_nil, Bool.true_and] at hseq
+  simp only [runBody]
+  generalize hrs : evalSeq ev vUnit body scopes out = rs at hseq ⊢
+  obtain ⟨s2, o2, oc2⟩ := rs
+  have hret : ∀ (v : Value) (V' : List Value) (B' : List Block),
+      MS p (F cb [] (v :: V') B' :: F b K V σ :: cs) o2 (F b K (pushIf cb.callerUses v V) σ :: cs) o2 := by
+    intro v V' B'
+    refine MS.ret (f := F cb [] (v :: V') B') (caller := F b K V σ) rfl rfl ?_
+    have : (if (F cb [] (v :: V') B').callerUses = true then (F b K V σ).pushV v else F b K V σ) =
+        F b K (pushIf cb.callerUses v V) σ := by
+      show (if cb.callerUses = true then _ else _) = _
+      cases cb.callerUses <;> rfl
+    rw [this]; exact MS.refl _ _
+  cases oc2
+  case val v =>
+    simp only [Concl] at hseq ⊢
+    refine ⟨trivial, ?_⟩
+    cases body with
+    | nil =>
+      simp [evalSeq] at hrs
+      obtain ⟨h1, h2, h3⟩ := hrs
+      subst h3
+      simp only [List.isEmpty_nil, Bool.not_true, pushIf, Bool.false_eq_true, if_false] at hseq
+      exact hseq.2.trans (hret _ _ _)
+    | cons x xs =>
+      simp only [List.isEmpty_cons, Bool.not_false, pushIf, if_true] at hseq
+      exact hseq.2.trans (hret _ _ _)
+  case ret v =>
+    simp only [Concl] at hseq ⊢
+    obtain ⟨V', B', h1⟩ := hseq
+    exact ⟨trivial, h1.trans (hret _ _ _)⟩
+  case err er => simp only [Concl] at hseq ⊢; exact hseq
+  case brk => simp only [Concl] at hseq; exact absurd hseq.1 (by simp)
+  case cont => simp only [Concl] at hseq; exact absurd hseq.1 (by simp)
+  all_goals simp [Concl]
+
+theorem MS.call1 {p : Program} {b : Frame} {cs : List Frame} {st : St} {e : Expr} {K : List (St × Expr)}
+    {V : List Value} {σ : List Block} {f' callee : Frame} {out : String}
+    (hd : dispatch p (F b K V σ) st e = .newFrame f' callee) :
+    MS p (F b ((st, e) :: K) V σ :: cs) out (callee :: f' :: cs) out :=
+  MS.call (f := F b ((st, e) :: K) V σ) (rest := K) rfl hd (MS.refl _ _)
+
+/-- The base (caller-related fields) of a callee frame. -/
+def calleeBase (u : Bool) (kind : FrameKind) (id : Nat) : Frame :=
+  { exprs := [], values := [], blocks := [], nextBlock := [], callerUses := u, kind := kind, callerId := some id }
+
+theorem mem_of_find {α : Type} (l : List α) (f : α → Bool) (d : α) (h : l.find? f = some d) : d ∈ l := by
+  induction l with
+  | nil => simp at h
+  | cons x xs ih =>
+    simp only [List.find?] at h
+    split at h
+    · cases h; simp
+    · exact List.mem_cons_of_mem _ (ih h)
+
+/-- Applying function values (`applyChecked`): closures and named functions run their body in a
+new frame; built-ins and constructors as in stage (a). -/
+theorem apHolds_checked {p : Program} {L : Nat} {ev : Ev} (ih : IH p L ev) (hL : 2 ≤ L)
+    (hfuns : ∀ d ∈ p.funs, bodyOK d.body = true) : ApHolds p (applyChecked p) ev := by
+  intro σ out fv vs id u recv args b cs K V hσ hl
+  have hE := call_E_eq p b K V σ id u recv args fv vs hl
+  have hp : popN vs.length (vs ++ fv :: V) = some (vs, fv :: V) := popN_append vs (fv :: V)
+  have hFv : ∀ V', ({ F b K (vs ++ fv :: V) σ with values := V' } : Frame) = F b K V' σ := fun _ => rfl
+  have hb := apHolds_builtin p ev σ out fv vs id u recv args b cs K V hσ hl
+  cases fv
+  case closure env params body =>
+    simp only [applyChecked]
+    by_cases hok : bodyOK body = true
+    · simp only [hok, if_true, BigStep.apply]
+      by_cases hpl : params.length = vs.length
+      · have hne : (params.length != vs.length) = false := by simp [hpl]
+        simp only [hne, Bool.false_eq_true, if_false]
+        have hd : dispatch p (F b K (vs ++ Value.closure env params body :: V) σ) .E (.call id u recv args) =
+            .newFrame (F b K V σ) (F (calleeBase u .closure id) (body.map (fun e => (St.N, e))) [vUnit]
+              (paramScope params vs :: env)) := by
+          rw [hE]; simp only [evalCall, hp, hFv, F_values, hne, Bool.false_eq_true, if_false]; rfl
+        exact (sim_fun_body ih hL body hok _ (by simp) (calleeBase u .closure id) b cs K V σ out).prepend
+          (MS.call1 hd)
+      · have hne : (params.length != vs.length) = true := by simp [hpl]
+        simp only [hne, if_true]
+        refine Concl_err1 ?_
+        rw [hE]; simp only [evalCall, hp, hFv, F_values, hne, if_true]
+        exact ⟨_, _, _, rfl⟩
+    · simp only [hok, Bool.false_eq_true, if_false]; simp [Concl]
+  case fn name =>
+    simp only [applyChecked, BigStep.apply]
+    cases hfd : p.funs.find? (fun d => d.name == name) with
+    | none => simp [Concl]
+    | some d =>
+      simp only []
+      have hok := hfuns d (mem_of_find _ _ _ hfd)
+      by_cases hpl : d.params.length = vs.length
+      · have hne : (d.params.length != vs.length) = false := by simp [hpl]
+        simp only [hne, Bool.false_eq_true, if_false]
+        have hd : dispatch p (F b K (vs ++ Value.fn name :: V) σ) .E (.call id u recv args) =
+            .newFrame (F b K V σ) (F (calleeBase u (.fn name) id) (d.body.map (fun e => (St.N, e))) [vUnit]
+              [paramScope d.params vs]) := by
+          rw [hE]; simp only [evalCall, hp, hFv, F_values, hfd, hne, Bool.false_eq_true, if_false]; rfl
+        exact (sim_fun_body ih hL d.body hok _ (by simp) (calleeBase u (.fn name) id) b cs K V σ out).prepend
+          (MS.call1 hd)
+      · have hne : (d.params.length != vs.length) = true := by simp [hpl]
+        simp only [hne, if_true]
+        refine Concl_err1 ?_
+        rw [hE]; simp only [evalCall, hp, hFv, F_values, hfd, hne, if_true]
+        exact ⟨_, _, _, rfl⟩
+  all_goals (simpa only [applyChecked, applyBuiltin] using hb)
+
+
+-- ==================================================================== (BS9.lean)
+
+/-- Stages (a) + (b) + (c): the simulation for every fuel, for the reference interpreter with the
+dynamic fragment check on closure bodies. -/
+theorem sim2 (p : Program) (hfuns : ∀ d ∈ p.funs, bodyOK d.body = true) :
+    ∀ n, IH p 2 (evalWith (applyChecked p) p n) ∧ HW p 2 (evalWith (applyChecked p) p n)
+  | 0 => ⟨IH_zero _ p 2, HW_zero _ p 2⟩
+  | n + 1 => by
+    obtain ⟨ih, hw⟩ := sim2 p hfuns n
+    have hw1 := while_step ih hw
+    refine ⟨?_, hw1⟩
+    intro bk ck e σ out hσ hl hwf hx
+    rcases kind_split e with hk | hk | hk
+    · exact sim_succ_b ih hw1 bk ck e σ out hσ hl hwf hx hk
+    · exact sim_succ_c ih bk ck e σ out hσ hl hwf hx hk
+    · exact sim_succ_a (apHolds_checked ih (by omega) hfuns) ih bk ck e σ out hσ hl hwf hx hk
+
+theorem foldl_max_le {α : Type} (f : α → Nat) (L : Nat) : ∀ (l : List α) (a : Nat),
+    l.foldl (fun m d => max m (f d)) a ≤ L → a ≤ L ∧ ∀ d ∈ l, f d ≤ L
+  | [], a, h => ⟨h, by simp⟩
+  | x :: xs, a, h => by
+      simp only [List.foldl] at h
+      have := foldl_max_le f L xs (max a (f x)) h
+      refine ⟨by omega, ?_⟩
+      intro d hd
+      rcases List.mem_cons.mp hd with h1 | h1
+      · subst h1; omega
+      · exact this.2 d h1
+
+/-- The program-level predicates give every named function a body inside the fragment. -/
+theorem funs_ok (p : Program) (hwf : wfProgram p = true) (hex : exitsProgram p = true)
+    (hlv : levelProgram p ≤ 2) : ∀ d ∈ p.funs, bodyOK d.body = true := by
+  intro d hd
+  simp only [wfProgram, Bool.and_eq_true, List.all_eq_true] at hwf
+  simp only [exitsProgram, Bool.and_eq_true, List.all_eq_true] at hex
+  have hne : p.funs.isEmpty = false := by cases hp : p.funs <;> simp_all
+  simp only [levelProgram, hne, Bool.false_eq_true, if_false] at hlv
+  have h3 := (foldl_max_le (fun d => lvB d.body) 2 p.funs 0 (by omega)).2 d hd
+  simp only [bodyOK, Bool.and_eq_true, decide_eq_true_eq]
+  exact ⟨⟨hwf.2 d hd, hex.2 d hd⟩, h3⟩
 
 
 end BigStepLemmas
